@@ -26,6 +26,10 @@
     common/hmmer.py : HmmerHit.__post_init__/to_json/from_json, HmmerResults.to_json/from_json/refilter ;
         detection/{full,cluster}_hmmer regenerate_previous_results
     modules/tta/tta.py : TTAResults.to_json/from_json/new_feature_from_location ; tta.run_on_record
+    common/hmm_rule_parser/cluster_prediction.py : the gene-less early exit of detect_protoclusters_and_signatures;
+        hmm_detection get_ruleset (multipliers) and run_on_record (what is stored)
+    common/serialiser.py : AntismashResults.to_json / from_file (schema handling, modules per record);
+        main.read_data (taxon of the saved run)
     main.py : run_module (with the D52 repair: `is not None` instead of truthiness)
 
   Python floats are carried as exact decimals `mant·10^exp` (normalised); comparisons are exact.
@@ -353,6 +357,19 @@ def valid (r : ModRules) (ctx : Ctx) (x : NrpsPks) : Bool :=
   x.recordId == ctx.recordId && x.cds.all fun p => ctx.cdsNames.contains p.1 && p.2.valid r
 end NrpsPks
 
+/-- `generate_domain_features`: the identifiers of the aSDomain features of one gene,
+    `nrpspksdomains_<gene>_<hit id>.<n>` with `n` counting the hits of that profile in order
+    (distinct hits; equal hits share a dictionary key in the code and are not modelled) -/
+def domainIdsGo (gene : String) : List String → List HMMResult → List String
+  | _, [] => []
+  | seen, h :: rest =>
+    let n := (seen.filter (· == h.hitId)).length + 1
+    ("nrpspksdomains_" ++ gene ++ "_" ++ h.hitId ++ "." ++ String.ofList (Nat.toDigits 10 n))
+      :: domainIdsGo gene (seen ++ [h.hitId]) rest
+/-- all domain features `from_json` (through `annotate_domains`) adds to the record, gene by gene -/
+def NrpsPks.domainIds (x : NrpsPks) : List String :=
+  x.cds.flatMap fun p => domainIdsGo p.1 [] p.2.domainHmms
+
 /-! ### rule-based detection: SecMetQualifier.Domain, CDSResults, protoclusters as features,
     RuleDetectionResults, HMMDetectionResults -/
 
@@ -567,6 +584,58 @@ def detach (x : RuleRes) : RuleRes := { x with byCluster := x.byCluster.map fun 
 def protoclusters (x : RuleRes) : List Proto := x.byCluster.map (·.1)
 end RuleRes
 
+/-! #### CDSResults.annotate / RuleDetectionResults.annotate_cds_features -/
+
+inductive FnKind where
+  | core | additional
+deriving DecidableEq, Repr, Inhabited
+
+/-- a `_GeneFunctionAnnotation` -/
+structure GeneFn where
+  kind : FnKind
+  tool : String
+  description : String
+  product : Option String
+deriving DecidableEq, Repr, Inhabited
+
+/-- what `annotate` touches of a CDS: its `sec_met` qualifier and its gene functions -/
+structure CdsState where
+  secmet : Option (List SDomain) := none
+  functions : List GeneFn := []
+deriving DecidableEq, Repr, Inhabited
+
+/-- `SecMetQualifier.add_domains`: a domain whose name is already present is skipped -/
+def addDomains (existing new : List SDomain) : List SDomain :=
+  new.foldl (fun acc d => if acc.any (·.name == d.name) then acc else acc ++ [d]) existing
+/-- `GeneFunctionAnnotations.add`: an identical annotation is not added twice -/
+def addFn (fs : List GeneFn) (f : GeneFn) : List GeneFn := if fs.contains f then fs else fs ++ [f]
+
+/-- `CDSResults.annotate(tool)` (with the D51 repair: definition domains are visited sorted) -/
+def CdsRes.annotate (tool : String) (st : CdsState) (c : CdsRes) : CdsState :=
+  let existing : List SDomain := match st.secmet with
+    | some ex => ex
+    | none => []
+  -- `if not self.cds.sec_met` (None or no domains): a new qualifier; otherwise the existing domain ids
+  -- count as matching and the new domains are appended
+  let doms := addDomains existing c.domains
+  let pre := existing.map (·.name)
+  let allMatching := pre ++ c.defDomains.flatMap (·.2)
+  let fns1 := c.defDomains.foldl (fun fs p =>
+      (setOf p.2).foldl (fun fs n => addFn fs ⟨.core, tool, n, some p.1⟩) fs) st.functions
+  let fns2 := doms.foldl (fun fs d =>
+      if allMatching.contains d.name then fs else addFn fs ⟨.additional, d.tool, d.name, none⟩) fns1
+  ⟨some doms, fns2⟩
+
+def updState (m : List (String × CdsState)) (name : String) (f : CdsState → CdsState) : List (String × CdsState) :=
+  if m.any (·.1 == name) then m.map fun p => if p.1 == name then (p.1, f p.2) else p
+  else m ++ [(name, f {})]
+
+/-- `annotate_cds_features` on a record without previous annotations: every CDSResults of every
+    protocluster in order, then those outside; the result per gene (in order of first annotation) -/
+def RuleRes.annotateAll (x : RuleRes) : List (String × CdsState) :=
+  (x.byCluster.flatMap (·.2) ++ x.outside).foldl
+    (fun m c => updState m c.cdsName (fun st => c.annotate x.tool st)) []
+
 def strictnessLevels : List String := ["strict", "relaxed", "loose"]
 
 structure HmmDet where
@@ -645,6 +714,31 @@ def regenerate (ctx : Ctx) (o : HmmOpts) (j : J) : Outcome HmmDet :=
 def valid (ctx : Ctx) (x : HmmDet) : Bool :=
   x.recordId == ctx.recordId && x.rules.valid ctx && strictnessLevels.contains x.strictness
 end HmmDet
+
+/-! ### producing side of hmm_detection: get_ruleset multipliers, the gene-less early exit of
+    detect_protoclusters_and_signatures, run_on_record -/
+
+/-- `get_ruleset(options).multipliers`: the defaults unless the taxon is fungi -/
+def rulesetMultipliers (o : HmmOpts) : Dec × Dec :=
+  if o.fungi then (o.cutoffMult, o.neighMult) else (Dec.one, Dec.one)
+
+/-- `detect_protoclusters_and_signatures` on a record without CDS features:
+    `RuleDetectionResults({}, ruleset.tool, [], ruleset.multipliers)` -/
+def RuleRes.noGenes (tool : String) (mult : Dec × Dec) : RuleRes := ⟨tool, [], [], mult.1, mult.2⟩
+
+/-- `run_on_record(record, None, options)` given what detection returned:
+    `HMMDetectionResults(record.id, results, sorted(rule names), options.hmmdetection_strictness)`
+    (`o.ruleNames` is the sorted list of rule names) -/
+def HmmDet.runOnRecord (ctx : Ctx) (o : HmmOpts) (detected : RuleRes) : HmmDet :=
+  ⟨ctx.recordId, detected, o.ruleNames, o.strictness⟩
+
+/-- … on a record without genes -/
+def HmmDet.runNoGenes (ctx : Ctx) (o : HmmOpts) (tool : String) : HmmDet :=
+  HmmDet.runOnRecord ctx o (RuleRes.noGenes tool (rulesetMultipliers o))
+
+/-- `check_options`: multipliers positive, strictness known -/
+def HmmOpts.ok (o : HmmOpts) : Bool :=
+  strictnessLevels.contains o.strictness && Dec.lt Dec.zero o.cutoffMult && Dec.lt Dec.zero o.neighMult
 
 /-! ### sideloader -/
 
@@ -962,6 +1056,13 @@ def regenerate (ctx : Ctx) (maxEvalue minScore : Dec) (j : J) : Outcome HmmerRes
       if Dec.lt minScore x.score || Dec.lt x.evalue maxEvalue then .discard
       else refilter x maxEvalue minScore
     | other => other
+/-- `f"{i+1:04d}"` -/
+def pad4 (n : Nat) : String :=
+  let ds := Nat.toDigits 10 n
+  String.ofList (List.replicate (4 - ds.length) '0' ++ ds)
+/-- `add_to_record`: the identifiers of the PFAM domain features, `<tool>_<locus tag>_<i+1:04d>` -/
+def domainIds (x : HmmerRes) : List String :=
+  (List.range x.hits.length).zip x.hits |>.map fun p => x.tool ++ "_" ++ p.2.locusTag ++ "_" ++ pad4 (p.1 + 1)
 /-- invariant of results produced by `run_hmmer`: hits are well-formed and within the thresholds -/
 def valid (ctx : Ctx) (x : HmmerRes) : Bool :=
   x.recordId == ctx.recordId && x.hits.all fun h => h.valid && Dec.le x.score h.score && Dec.le h.evalue x.evalue
@@ -1027,6 +1128,80 @@ def detect (recordId : String) (gc opt : Dec) (allCodons : List Loc) : TTA :=
 /-- Biopython locations always have at least one part -/
 def locsOk (l : List Loc) : Bool := l.all fun x => !x.parts.isEmpty
 end TTA
+
+/-! ### the results file: serialiser.AntismashResults.to_json / from_file, main.read_data -/
+
+/-- one entry of `records`: everything `dump_records` writes for the record itself (`fields`:
+    record_to_json, areas, original_id, gc_content — the record round trip is C10's subject) and the
+    per-module results -/
+structure FileRec where
+  fields : List (String × J)
+  modules : List (String × J)
+deriving Repr, Inhabited
+
+structure ResultsFile where
+  version : String
+  inputFile : String
+  records : List FileRec
+  timings : J
+  taxon : String
+deriving Repr, Inhabited
+
+namespace ResultsFile
+/-- `AntismashResults.SCHEMA_VERSION` -/
+def schemaVersion : Int := 4
+/-- `AntismashResults.COMPATIBLE_SCHEMAS[4]` -/
+def compatibleSchemas : List Int := [3, 2, 1]
+
+def recToJson (r : FileRec) : J := .obj (r.fields ++ [("modules", .obj r.modules)])
+/-- `to_json`: the file's own schema number is written under the key "schema" -/
+def toJson (f : ResultsFile) : J :=
+  .obj [("version", .str f.version), ("input_file", .str f.inputFile),
+        ("records", .arr (f.records.map recToJson)), ("timings", f.timings),
+        ("taxon", .str f.taxon), ("schema", .int schemaVersion)]
+
+/-- `schema = data.get("schema", 1)`; accepted iff `schema == current or schema in COMPATIBLE[current]`
+    (Python compares `True == 1`) -/
+def schemaAccepted (o : Option J) : Bool :=
+  match o with
+  | none => compatibleSchemas.contains 1
+  | some (.int n) => n == schemaVersion || compatibleSchemas.contains n
+  | some (.bool b) => compatibleSchemas.contains (if b then 1 else 0)
+  | some _ => false
+
+def eraseKey (k : String) : List (String × J) → List (String × J)
+  | [] => []
+  | (k', v) :: rest => if k' == k then eraseKey k rest else (k', v) :: eraseKey k rest
+
+/-- `rec["modules"]` of one record entry (the record part stays as it is) -/
+def recFromJson : J → Outcome FileRec
+  | .obj kv =>
+    match lookup "modules" kv with
+    | some (.obj m) => .reuse ⟨eraseKey "modules" kv, m⟩
+    | none => .refuse .key
+    | _ => .refuse .type
+  | _ => .refuse .type
+
+/-- `AntismashResults.from_file` after the text has been parsed; `timings` are not read back -/
+def fromJson : J → Outcome ResultsFile
+  | .obj kv =>
+    if !schemaAccepted (lookup "schema" kv) then .refuse .value
+    else do
+      let version ← reqStr kv "version"
+      let inputFile ← reqStr kv "input_file"
+      let taxon ← match lookup "taxon" kv with
+        | some (.str t) => Outcome.reuse t
+        | none => Outcome.reuse "bacteria"
+        | _ => Outcome.refuse .type
+      let rj ← reqArr kv "records"
+      let records ← mapO recFromJson rj
+      pure ⟨version, inputFile, records, .obj [], taxon⟩
+  | _ => .refuse .type
+
+/-- `main.read_data` on reuse: the taxon of the saved run replaces the option -/
+def readDataTaxon (_optionTaxon : String) (f : ResultsFile) : String := f.taxon
+def valid (f : ResultsFile) : Bool := f.records.all fun r => (lookup "modules" r.fields).isNone
+end ResultsFile
 
 /-! ### main.run_module -/
 
